@@ -43,6 +43,8 @@ func checkC18(c *Ctx, r *Report) {
 	ed25519KeyLength(c, r, "C18.R1.ed25519-key-length")
 	r.rule("C18.R3.label-room", 1, "packDomainName's room tests against len(msg) are strict")
 	labelRoomExact(c, r, "C18.R3.label-room", "Sign, whose buffer has no slack, fails with 'buffer size too small' for a root-zone signer on a message compression does not shrink")
+	r.rule("C18.R2.fresh-hash", 1, "hashFromAlgorithm returns a hash state of its own for every call")
+	freshHash(c, r, "C18.R2.fresh-hash")
 }
 
 func c18R1(c *Ctx, r *Report) {
